@@ -65,9 +65,47 @@ def rand_prop_value(rnd):
     return ("w", name, kind, rand_array(rnd, kind, 1).tobytes())
 
 
-def rand_props(rnd):
+def pun(rnd, v):
+    """a value of ANOTHER TDMS type with the same bytes and an equal Python value (0 == 0.0, 1 == True, int32 5 == uint32 5):
+    rewriting a property with it must change the property's type in the file"""
+    import struct
+    k = v[0]
+    if k == "b":
+        return ("n", rnd.choice(["i1", "u1"]), bytes([1 if v[1] else 0]))
+    if k == "f" and struct.pack("<d", v[1]) == bytes(8):
+        return ("n", rnd.choice(["i8", "u8"]), bytes(8))
+    if k == "i" and -2 ** 31 <= v[1] < 2 ** 31 and v[1] >= 0:
+        return ("n", "u4", struct.pack("<I", v[1]))
+    if k == "n":
+        kind, raw = v[1], v[2]
+        if kind in ("i1", "u1") and raw in (b"\x00", b"\x01"):
+            return rnd.choice([("b", raw == b"\x01"), ("n", "u1" if kind == "i1" else "i1", raw)])
+        if kind[0] in "iu" and raw[-1] < 128:
+            return ("n", ("u" if kind[0] == "i" else "i") + kind[1], raw)
+        if raw == bytes(len(raw)) and kind in ("i8", "u8", "f8"):
+            return ("f", 0.0) if kind != "f8" else ("n", "i8", raw)
+        if raw == bytes(4) and kind in ("i4", "u4", "f4"):
+            return ("n", "f4" if kind != "f4" else "i4", raw)
+    return None
+
+
+def rand_props(rnd, prev=None):
+    """property list for one object in one segment; `prev` (dict, updated) remembers the values already written for that object:
+    now and then an earlier property is rewritten with a value of another type but identical bytes (see `pun`)"""
     names = rnd.sample(["p", "unit_string", "wf_increment", "名", "q q", "", "x" * 7], rnd.choice([0, 0, 1, 2, 3]))
-    return [(n, rand_prop_value(rnd)) for n in names]
+    out = []
+    for n in names:
+        v = None
+        if prev is not None and n in prev and rnd.random() < 0.6:
+            v = pun(rnd, prev[n])
+        if v is None:
+            v = rand_prop_value(rnd)
+            if rnd.random() < 0.25:
+                v = rnd.choice([("b", True), ("f", 0.0), ("i", rnd.randint(0, 9)), ("n", "i1", b"\x01"), ("n", "i4", bytes(4)), ("n", "i8", bytes(8)), ("n", "u2", b"\x07\x00")])
+        out.append((n, v))
+        if prev is not None:
+            prev[n] = v
+    return out
 
 
 def rand_data(rnd):
@@ -126,16 +164,17 @@ def draw(rnd, max_sessions=3, max_segments=4):
             chans.append(gc)
     chan_data_kind = {}
     chan_typed = set()
+    written_props = {}
     prog = []
     for _ in range(rnd.randint(1, max_sessions)):
         sess = []
         for _ in range(rnd.randint(1, max_segments)):
             seg = []
             if rnd.random() < 0.3:
-                seg.append(("R", rand_props(rnd)))
+                seg.append(("R", rand_props(rnd, written_props.setdefault("/", {}))))
             for g in groups:
                 if rnd.random() < 0.3:
-                    seg.append(("G", g, rand_props(rnd)))
+                    seg.append(("G", g, rand_props(rnd, written_props.setdefault(("g", g), {}))))
             for gc in rnd.sample(chans, rnd.randint(0, len(chans))):
                 # a channel keeps its data type over the file
                 if gc not in chan_data_kind:
@@ -168,7 +207,7 @@ def draw(rnd, max_sessions=3, max_segments=4):
                         d = ("E", "empty-object-array")
                 if tcode(d) is not None:
                     chan_typed.add(gc)       # the channel now has a data type in the file
-                seg.append(("C", gc[0], gc[1], d, rand_props(rnd)))
+                seg.append(("C", gc[0], gc[1], d, rand_props(rnd, written_props.setdefault(gc, {}))))
             if rnd.random() < 0.2:
                 rnd.shuffle(seg)
             sess.append(seg)
@@ -238,6 +277,39 @@ def to_python(seg, nptdms):
         else:
             out.append(ChannelObject(ob[1], ob[2], to_python_data(ob[3]), props))
     return out
+
+
+REJECTION_KINDS = []      # exception class names of the calls rejected by the last write_resilient (diagnostics)
+
+
+def write_resilient(prog, nptdms, version, data, index, by_path=None):
+    """Run the program against the real TdmsWriter the way a caller that survives errors would: a write_segment call that raises
+    (ValueError / TypeError / OverflowError, also while the segment's objects are being built) is skipped and the session goes
+    on. Returns (accepted program = prog without the rejected segments, number of rejected calls, unexpected exception or None).
+    A rejected call must be a no-op: the bytes written must be those of the accepted program."""
+    accepted, rejected = [], 0
+    del REJECTION_KINDS[:]
+    mode = "w"
+    try:
+        for sess in prog:
+            acc = []
+            if by_path is not None:
+                w = nptdms.TdmsWriter(by_path, mode=mode, version=version, index_file=True)
+            else:
+                w = nptdms.TdmsWriter(data, version=version, index_file=index if index is not None else False)
+            with w:
+                for seg in sess:
+                    try:
+                        w.write_segment(to_python(seg, nptdms))
+                        acc.append(seg)
+                    except (ValueError, TypeError, OverflowError) as ex:
+                        rejected += 1
+                        REJECTION_KINDS.append(type(ex).__name__)
+            mode = "a"
+            accepted.append(acc)
+    except Exception as ex:  # noqa
+        return accepted, rejected, ex
+    return accepted, rejected, None
 
 
 def val_token(v):
